@@ -173,11 +173,15 @@ fn gen_plan(ch: &mut Ch) -> Plan {
         clients.push(ClientSpec { ep: 200 + i as Ep, lanes: vec![LaneSpec { transfers: vec![at], timeout_ms: 400 * 24 * 3600 * 1000 }], mid0: 0, tok_seed: 5 + i as u64, net: lat.clone(), via_proxy: false });
     }
     let _ = gap_windows;
+    // the application may take simulated time (split-phase): exchanges on
+    // other keys are processed while one is at the application
+    let slow_app_pm = if ch.chance(1, 3, "e.slow-app") { 100 + ch.below(700, "e.slow-app.pm") } else { 0 };
     let spec = WorldSpec {
         server: ServerCfg { budget, expiry_ns: expiry, check_wire: false, snapshots: false, feed_all_types: false, record_held: true, held_every: if many_keys { 97 } else { 1 }, held_always_from: 100 },
         resources,
         clients,
         max_events: 40_000,
+        slow_app_pm,
     };
     Plan { spec, expiry, upload, size, body_len, body_id }
 }
@@ -208,27 +212,36 @@ pub fn run(ch: &mut Ch, verbose: bool) -> Outcome {
 
     // ---- reference model: key -> last touch ---------------------------
     let mut last: BTreeMap<MKey, u64> = BTreeMap::new();
-    let mut held_iter = r.server.held_log.iter().peekable();
+    let held_by_seq: BTreeMap<usize, &Vec<(Ep, u8, Vec<String>)>> = r.server.held_log.iter().map(|(s, h)| (*s, h)).collect();
     let mut max_purged = 0usize;
     let mut prev_held = 0usize;
+    // Every handler call touches its key: intercept_request when the datagram
+    // is taken up, intercept_response when the application is done (later, in
+    // split-phase).  Touches in time order; the snapshot belongs to the touch
+    // that ends the exchange.
+    let mut touches: Vec<(u64, usize, MKey, Option<usize>)> = Vec::new();
     for a in log.iter() {
         if !a.is_request || a.ireq.is_none() {
             continue;
         }
         let Some(k) = mkey(a) else { continue };
-        last.insert(k.clone(), a.time);
-        // compare with what the handler physically holds after this call
-        while let Some((s, _)) = held_iter.peek() {
-            if *s < a.seq {
-                held_iter.next();
-            } else {
-                break;
-            }
+        if a.app.is_some() && a.time_done > a.time {
+            touches.push((a.time, a.tick_begin as usize, k.clone(), None));
+            touches.push((a.time_done, a.tick_done as usize, k, Some(a.seq)));
+            stats.hit("probe.c20.split-phase-exchange");
+        } else {
+            touches.push((a.time_done, a.tick_done as usize, k, Some(a.seq)));
         }
-        if let Some((s, held)) = held_iter.peek() {
-            if *s == a.seq {
+    }
+    // the order in which the server made the calls
+    touches.sort_by_key(|x| x.1);
+    for (now, _ord, k, snap) in touches.iter() {
+        let now = *now;
+        last.insert(k.clone(), now);
+        // compare with what the handler physically holds after this call
+        if let Some(held) = snap.and_then(|sq| held_by_seq.get(&sq)) {
+            {
                 stats.hit("c20.held-snapshots-compared");
-                let now = a.time;
                 let held_set: std::collections::BTreeSet<&MKey> = held.iter().collect();
                 for (mk, t) in &last {
                     let idle = now - t;
@@ -263,7 +276,7 @@ pub fn run(ch: &mut Ch, verbose: bool) -> Outcome {
             }
         }
         // forget what the model no longer has to remember (long expired)
-        last.retain(|_, t| a.time - *t <= e);
+        last.retain(|_, t| now - *t <= e);
     }
     if max_purged >= 10 {
         stats.hit("probe.c20.purge-of-10-or-more-entries-in-one-call");
@@ -284,8 +297,8 @@ pub fn run(ch: &mut Ch, verbose: bool) -> Outcome {
         let mut open = false;
         let mut prev_t: Option<u64> = None;
         for (j, a) in obs.iter().enumerate() {
-            let idle = prev_t.map(|p| a.time - p);
-            prev_t = Some(a.time);
+            let idle = prev_t.map(|p| a.time.saturating_sub(p));
+            prev_t = Some(a.time_done);
             if let Some(call) = &a.app {
                 cur = Some((call.body_out_id, call.body_out_len));
             }
@@ -352,8 +365,8 @@ pub fn run(ch: &mut Ch, verbose: bool) -> Outcome {
         let mut restart_at: Option<usize> = None; // block index of the last must-expire gap
         let mut either = false;
         for (j, a) in obs.iter().enumerate() {
-            let idle = prev_t.map(|p| a.time - p);
-            prev_t = Some(a.time);
+            let idle = prev_t.map(|p| a.time.saturating_sub(p));
+            prev_t = Some(a.time_done);
             if j > 0 {
                 let idle = idle.unwrap();
                 abstract_h.byte(if idle < e { 0 } else if idle > e { 2 } else { 1 });
@@ -417,7 +430,7 @@ pub fn run(ch: &mut Ch, verbose: bool) -> Outcome {
         let mut prev: Option<u64> = None;
         for a in obs.iter() {
             if let Some(p) = prev {
-                let idle = a.time - p;
+                let idle = a.time.saturating_sub(p);
                 if idle > e {
                     stats.hit("fault.time-jump-beyond-expiry");
                 } else if idle > 4 * LAT_MS * MS {
